@@ -108,6 +108,8 @@ def normalize_opb(constraint):
             l = -l
             value = value + c
             combinations[i] = (c,l)
+    # terms with coefficient zero do not contribute
+    combinations = [(c,l) for (c,l) in combinations if c != 0]
     return combinations+[op,value]
 
 
